@@ -6,6 +6,7 @@
 import LccModel.Proto
 import LccModel.Model.Filter
 open Lean LccModel LccModel.Proto LccModel.Filter
+open LccModel.Regex (CSet Item Cat)
 
 def pStr (j : Json) : Except String Str := do
   let a ← j.getArr?
@@ -68,11 +69,48 @@ def pBase (j : Json) : Except String Base := do
          props := ← pList (pList (pPair pStr pStr)) (← fld j "props"),
          links := ← pList (pList pStr) (← fld j "links") }
 
+def pCat (j : Json) : Except String Cat := do
+  match ← j.getStr? with
+  | "space" => pure .space
+  | "digit" => pure .digit
+  | "word" => pure .word
+  | s => throw s!"category {s}"
+
+def pItem (j : Json) : Except String Item := do
+  match ← getStr j "k" with
+  | "single" => pure (.single (← (← fld j "c").getNat?))
+  | "range" => pure (.range (← (← fld j "lo").getNat?) (← (← fld j "hi").getNat?))
+  | "cat" => pure (.cat (← pCat (← fld j "cat")) (← getBool j "neg"))
+  | k => throw s!"set item {k}"
+
+/-- The pattern as the harness read it off Python's own parse tree (`re._parser.parse`). -/
+partial def pRE (j : Json) : Except String RE := do
+  match ← getStr j "t" with
+  | "eps" => pure .eps
+  | "lit" => pure (.lit (← (← fld j "c").getNat?))
+  | "any" => pure .any
+  | "set" => pure (.set { neg := ← getBool j "neg", items := ← pList pItem (← fld j "items") })
+  | "bol" => pure .bol
+  | "eol" => pure .eol
+  | "bos" => pure .bos
+  | "eos" => pure .eos
+  | "wordb" => pure (.wordB (← getBool j "neg"))
+  | "seq" => pure (.seq (← pRE (← fld j "a")) (← pRE (← fld j "b")))
+  | "alt" => pure (.alt (← pRE (← fld j "a")) (← pRE (← fld j "b")))
+  | "star" => pure (.star (← pRE (← fld j "a")))
+  | t => throw s!"regex node {t}"
+
 def pCli (j : Json) : Except String Cli := do
-  pure { base := ← pBase j, enabled := ← getBool j "enabled", disabled := ← getBool j "disabled",
+  let grep ← pOpt pStr (← fld j "grep")
+  let ast := (j.getObjVal? "grep_ast").toOption.getD .null
+  let c : Cli :=
+       { base := ← pBase j, enabled := ← getBool j "enabled", disabled := ← getBool j "disabled",
          passed := ← getBool j "passed", failed := ← getBool j "failed", skipped := ← getBool j "skipped",
-         nonPassed := ← getBool j "non_passed", grep := ← pOpt pStr (← fld j "grep"),
+         nonPassed := ← getBool j "non_passed", grep := grep,
          fromReport := ← getBool j "from_report" }
+  match ast with
+  | .null => pure c
+  | a => pure { c with grepRe := ← pRE a }
 
 def jStr (s : Str) : Json := Json.arr (s.map (fun (n : Nat) => Json.num (JsonNumber.fromNat n))).toArray
 def jList {α} (f : α → Json) (l : List α) : Json := Json.arr (l.map f).toArray
@@ -105,6 +143,13 @@ def handle (j : Json) : Except String Json := do
     let lit ← pStr (← fld j "lit")
     let strs ← pList pStr (← fld j "strs")
     pure (Json.mkObj [("m", jList (fun s => Json.bool (containsCI lit s)) strs)])
+  | "regex" =>
+    -- `re.compile(p, IGNORECASE | MULTILINE).search(s)` for every s; `joined`: one search over "\n".join(strs)
+    let re ← pRE (← fld j "re")
+    let strs ← pList pStr (← fld j "strs")
+    pure (Json.mkObj [("m", jList (fun s => Json.bool (Regex.search re s)) strs),
+                      ("joined", Json.bool (Regex.search re (Regex.joinNL strs))),
+                      ("line_local", Json.bool re.lineLocal)])
   | "select" =>
     let suites ← pList (pTree pNode) (← fld j "suites")
     let report ← pList (pTree pTestRes) (← fld j "report")
